@@ -70,7 +70,12 @@ func c17GenPerm(r *Rng, allowPanic bool) c17Perm {
 	}
 	if r.Chance(80, 100) {
 		ac := c17AC{P: 1}
-		if r.Chance(85, 100) {
+		if r.Chance(8, 100) {
+			// a requirement key that does not identify records: both bnb types select the same rule,
+			// and the rule allows every field in which they differ
+			ac.Multi = append(ac.Multi, c17Req{"denom", "bnb", append([]string{"type", "liquidation_ratio", "stability_fee"}, subset(r, collAttrs, "")...)})
+			ac.Multi = append(ac.Multi, c17Req{"denom", "xrp", subset(r, collAttrs, "")})
+		} else if r.Chance(85, 100) {
 			for _, t := range []string{"bnb-a", "bnb-b", "xrp-a"} {
 				if r.Chance(8, 100) {
 					continue
@@ -442,6 +447,33 @@ func (g *c17Gen) genDoc(slot int, perm *c17Perm, prev *c17Snap) string {
 	}
 	if doc.K != 'a' {
 		return pick(r, []string{`[]`, `null`, `{}`, `[{"denom":"bnb"}]`})
+	}
+	// a rule keyed by a value that two current records share: leave the first of
+	// them alone and change a protected field of the second one only
+	for _, ac := range acs {
+		for _, q := range ac.Multi {
+			var same []*jnode
+			for _, rec := range doc.A {
+				if v := rec.get(q.Key); v != nil && v.K == 's' && v.S == q.Val {
+					same = append(same, rec)
+				}
+			}
+			if len(same) >= 2 && r.Chance(40, 100) {
+				for _, f := range sl.Schema {
+					allowed := false
+					for _, a := range q.Attrs {
+						if a == f.Name {
+							allowed = true
+						}
+					}
+					if !allowed && f.Name != q.Key && r.Chance(1, 3) {
+						setKey(same[1], f.Name, g.goodValue(f, same[1].get(f.Name)))
+						g.mark("second-record-of-shared-key")
+						return doc.text()
+					}
+				}
+			}
+		}
 	}
 	for _, rec := range doc.A {
 		attrs := all()
